@@ -232,32 +232,72 @@ def _arr_const(o, out):
             out.append(vs)
 
 
+def _chain_roots(v, _seen=None):
+    """the values a map starts from, through its mutation chain and merges: set of id(node) of the non-mut, non-phi nodes at the bottom"""
+    if _seen is None:
+        _seen = set()
+    v = peel(v)
+    if id(v) in _seen:
+        return set()
+    _seen.add(id(v))
+    if v.kind == "mut" and v.kids:
+        return _chain_roots(v.kids[0], _seen)
+    if v.kind == "phi":
+        out = set()
+        for k in v.kids:
+            if k.kind != "cycle":
+                out |= _chain_roots(k, _seen)
+        return out
+    if v.kind in ("variant", "field") and v.kids and v.d.get("adt") in (common.OPTION, common.RESULT, "std::ops::ControlFlow", None) and v.kind == "variant" or \
+            (v.kind == "field" and v.kids and v.d.get("adt") in (common.OPTION, common.RESULT, "std::ops::ControlFlow", "serde_json::Value")):
+        return _chain_roots(v.kids[0], _seen)
+    if v.kind == "call" and v.kids and v.d["term"].get("name") in ("branch", "ok_or", "ok_or_else", "clone", "as_object", "as_object_mut", "to_owned", "unwrap", "expect", "map_err"):
+        return _chain_roots(v.kids[0], _seen)
+    return {id(v)}
+
+
 def p3(ctx, fx, I):
     ws = [w for w in (common.struct_field_writes(fx, imodel.ISTRUCT, "sd_jwt_payload") or []) if w["how"] in ("assign", "calldest") and w["fn"].name != "issuer::SDJWTIssuer::reset"]
-    A = fx.view(ws[0]["fn"].name) if ws else None
-    if A is None:
+    if not ws:
         ctx.missing("C05.P3", "payload assembly", "no function assigns SDJWTIssuer.sd_jwt_payload")
         return
+    # judged where the whole assembly is visible: the issuing entry's view when the assigning function is spliced into it (the always-visible
+    # keys may be taken out by the entry before the assembly helper runs), else the assigning function's own view
+    A = fx.view(ws[0]["fn"].name)
+    if I.issue is not None and ws[0]["fn"].name in I.issue.inlined_names():
+        A = I.issue
     av = vals(A)
     oks = [e["bb"] for e in cfg.exit_sites(A) if e["kind"] == "Ok"]
+    pws = [w for w in (common.struct_field_writes(fx, imodel.ISTRUCT, "sd_jwt_payload", fns=[A]) or []) if w["how"] in ("assign", "calldest") and w["value"] is not None
+           and not (peel(w["value"]).kind == "call" and peel(w["value"]).d["term"].get("name") in ("new", "default") and not peel(w["value"]).kids)]
+    proots = set()
+    for w in pws:
+        proots |= _chain_roots(w["value"])
+
+    def is_payload_map(node):
+        """the map that is (or becomes) the payload: the field itself, or the local map later moved into it"""
+        p0 = peel(node)
+        if p0.kind == "field" and p0.d.get("name") == "sd_jwt_payload":
+            return True
+        r = _chain_roots(node)
+        return bool(r) and bool(proots) and r <= proots
     ins = []
     for b, t in A.calls():
         n = av.call_node(b)
         if t.get("name") == "insert" and len(n.kids) == 3 and const_value(n.kids[1]) == "_sd_alg":
             ins.append((b, n))
-    good = [(b, n) for (b, n) in ins if may(n.kids[2], lambda x: const_value(x) == "sha-256") and peel(n.kids[0]).kind == "field" and peel(n.kids[0]).d.get("name") == "sd_jwt_payload"]
+    good = [(b, n) for (b, n) in ins if may(n.kids[2], lambda x: const_value(x) == "sha-256") and is_payload_map(n.kids[0])]
     if good and oks and not any(o in cfg.reachable(A, [0], removed_blocks=[b for (b, _) in good]) for o in oks):
         ctx.ok("C05.P3", A, "sd_alg", "`_sd_alg` = \"sha-256\" is inserted into the payload on every Ok path", line=A.term(good[0][0]).get("line"))
     else:
         ctx.finding("C05.P3", A, "sd_alg", "the payload can be produced without `_sd_alg` = \"sha-256\"")
     # order: remove the always-visible keys -> mark (the crate-local call whose result becomes the payload) -> append them in clear
     mark = []
-    for w in common.struct_field_writes(fx, imodel.ISTRUCT, "sd_jwt_payload", fns=[A]) or []:
-        if w["how"] in ("assign", "calldest") and w["value"] is not None:
-            for x in walk(w["value"]):
-                if x.kind == "call" and x.d["term"].get("resolved_local") and x.d["term"].get("resolved") in fx.fns and fx.fns[x.d["term"]["resolved"]].kind != "closure" \
-                        and (fx.fns[x.d["term"]["resolved"]].impl_self or "") == imodel.ISTRUCT:
-                    mark.append(x.d["bb"])
+    for w in pws:
+        for x in walk(w["value"]):
+            if x.kind == "call" and x.d["term"].get("resolved_local") and x.d["term"].get("resolved") in fx.fns and fx.fns[x.d["term"]["resolved"]].kind != "closure" \
+                    and (fx.fns[x.d["term"]["resolved"]].impl_self or "") == imodel.ISTRUCT and x.d.get("bb") not in mark:
+                mark.append(x.d["bb"])
     homes = {A.name} | A.inlined_names()
     removes = []
     for f in fx.fns.values():
@@ -268,22 +308,37 @@ def p3(ctx, fx, I):
     arrays = const_str_arrays(A)
     for pb in A.promoted:
         arrays += const_str_arrays(pb)  # `CONST_ARRAY.iter()` borrows a promoted copy of the constant
+    for hn in A.inlined_names():
+        hf = fx.fns.get(hn)
+        if hf is not None:
+            for pb in hf.promoted:
+                arrays += const_str_arrays(pb)
     keys = arrays[-1] if arrays else None
     for a in arrays:
         if set(a) == {"iss", "iat", "exp"}:
             keys = a
     colls = [b for b, t in A.calls() if t.get("name") == "collect" and any(may(k, lambda x: x.kind == "agg" and x.d["agg"].get("kind") == "closure" and x.d["agg"].get("def") in [r.name for r in removes]) for k in av.call_node(b).kids)]
+    # removal calls made directly in the view (a hand-written loop, a pipeline the view spelled out, or one call per key)
+    rem_calls = [(b, av.call_node(b)) for b, t in A.calls() if t.get("name") in REMOVERS and (t.get("self_ty") or "").startswith(("serde_json::Map", "&mut serde_json::Map", "indexmap::"))]
+    direct_keys = [const_value(n.kids[1]) for (b, n) in rem_calls if len(n.kids) > 1 and isinstance(const_value(n.kids[1]), str)]
     if not colls:
-        # the pipeline spelled out as a loop (by hand, or by the view): the removal happens in a loop over the key array
-        rem_calls = [b for b, t in A.calls() if t.get("name") in REMOVERS]
         for lp in next_loops(A):
             body = set()
             for d_ in lp.body_entries:
                 body |= cfg.reachable(A, [d_], removed_blocks=[lp.bb])
-            if any(rb in body for rb in rem_calls):
+            if any(rb in body for (rb, _) in rem_calls):
                 colls.append(lp.bb)
                 removes = removes or [A]
-    apps = [b for b, t in A.calls() if t.get("name") in ("append", "extend") and peel(av.call_node(b).kids[0]).kind == "field" and peel(av.call_node(b).kids[0]).d.get("name") == "sd_jwt_payload"]
+    if not colls and len(direct_keys) == len(rem_calls) and direct_keys:
+        # `claims.shift_remove("iss")`, `..("iat")`, `..("exp")` one by one
+        keys = direct_keys
+        colls = [rem_calls[-1][0]]
+        removes = [A]
+    apps = [b for b, t in A.calls() if t.get("name") in ("append", "extend") and is_payload_map(av.call_node(b).kids[0])]
+    if not apps:
+        # re-insertion one entry at a time: insert(payload, key, value) in a loop over the removed entries / per key
+        apps = [b for b, t in A.calls() if t.get("name") == "insert" and len(av.call_node(b).kids) == 3 and is_payload_map(av.call_node(b).kids[0])
+                and const_value(av.call_node(b).kids[1]) not in ("_sd_alg", "cnf") and any(b in cfg.reach_strict(A, m) for m in mark)]
     if keys is not None and set(keys) == {"iss", "iat", "exp"} and len(keys) == 3 and removes and colls and mark and apps:
         c0, m0, a0 = colls[0], mark[0], apps[0]
         order = m0 not in cfg.reachable(A, [0], removed_blocks=[c0]) and a0 not in cfg.reachable(A, [0], removed_blocks=[m0]) and not any(o in cfg.reachable(A, [0], removed_blocks=[a0]) for o in oks)
@@ -302,7 +357,7 @@ def p4(ctx, fx, I):
     fcall = None
     for b, t in issue.calls():
         if t.get("resolved_local") and (fx.fns[t["resolved"]].impl_self or "").startswith(STRAT) and (fx.fns[t["resolved"]].raw.get("ret_ty") or "").startswith("std::result::Result<()"):
-            F = fx.fns[t["resolved"]]
+            F = fx.view(t["resolved"])
             fcall = (b, iv.call_node(b))
     if F is None:
         ctx.finding("C05.P4", issue, "path-check", "issue_sd_jwt does not validate the strategy's paths (no Result-returning strategy method is called)")
@@ -328,7 +383,7 @@ def p4(ctx, fx, I):
                 starts = [x for (_, x) in bad if F.term(x)["k"] != "unreachable"]
                 r = cfg.reachable(F, starts)
                 oks = [e["bb"] for e in cfg.exit_sites(F) if e["kind"] == "Ok"]
-                errs = [e["bb"] for e in cfg.exit_sites(F) if e["kind"] == "Err"]
+                errs = [e["bb"] for e in cfg.exit_sites(F) if e["kind"] in ("Err", "residual")]
                 if starts and lp.bb not in r and not any(o in r for o in oks) and any(e in r for e in errs):
                     # every iteration performs the check
                     if all(lp.bb not in cfg.reachable(F, [d], removed_blocks=[b]) for d in lp.body_entries):
@@ -444,13 +499,30 @@ def p5(ctx, fx, I):
             clo = peel(n_.kids[1]) if len(n_.kids) > 1 else None
             if clo is not None and clo.kind == "agg" and clo.d["agg"].get("kind") == "closure" and clo.d["agg"].get("def") in fx.fns:
                 entry = fx.view(clo.d["agg"]["def"])
+    helper_locals = None
+    if entry is None:
+        # the continuation test as a named helper `fn descend(path: &str, key: &str) -> Option<&str>` called for every listed path
+        f0 = fx.fns[nl.name]
+        kparams = [i for i in range(1, f0.arg_count + 1) if (f0.local_ty(i) or "").lstrip("&") == "str"]
+        for b_, t_ in f0.calls():
+            cn_ = t_.get("resolved")
+            if t_.get("resolved_local") and cn_ in fx.fns and fx.fns[cn_].kind != "closure" and fx.fns[cn_].arg_count == 2 \
+                    and (fx.fns[cn_].raw.get("ret_ty") or "").startswith("std::option::Option<&") and "str" in (fx.fns[cn_].raw.get("ret_ty") or ""):
+                n_ = nv.call_node(b_)
+                kpos = [i for i, k_ in enumerate(n_.kids) if must(k_, lambda x: x.kind == "param" and x.fn is f0 and x.d["idx"] in kparams)]
+                if len(kpos) == 1 and len(n_.kids) == 2:
+                    entry = fx.view(cn_)
+                    helper_locals = (2 - kpos[0], kpos[0] + 1)   # (path local, key local)
     if entry is not None and entry.arg_count == 2:
         try:
             tab = {}
             classes = pathsep.alphabet(entry)
             for cls in classes:
-                it = pathsep.Interp(entry, 2, None, cls)
-                it.env[1] = ("ref", ("closure", [("ref", ("ref", ("key",)))]))
+                if helper_locals is not None:
+                    it = pathsep.Interp(entry, helper_locals[0], helper_locals[1], cls)
+                else:
+                    it = pathsep.Interp(entry, 2, None, cls)
+                    it.env[1] = ("ref", ("closure", [("ref", ("ref", ("key",)))]))
                 r = it.run()
                 if not (isinstance(r, tuple) and r[0] == "variant" and r[1] in ("Some", "None")):
                     raise pathsep.Unsupported("result %r" % (r,))
